@@ -161,9 +161,28 @@ impl Ep {
     }
 }
 
+/// a time of day in which only the decomposition fields selected by `mask` (bit 0 hours, 1 minutes, 2 seconds,
+/// 3 milliseconds, 4 microseconds, 5 nanoseconds) are non-zero, their values taken from `r`
+pub fn tod_masked(mask: u8, r: u64) -> i128 {
+    const W: [i128; 6] = [NS_H, NS_MIN, NS_S, 1_000_000, 1_000, 1];
+    const N: [u64; 6] = [24, 60, 60, 1000, 1000, 1000];
+    let mut t = 0i128;
+    let mut r = r;
+    for k in 0..6 {
+        if mask & (1 << k) != 0 {
+            let v = 1 + r % (N[k] - 1);
+            r = r / N[k] ^ r.rotate_left(17);
+            t += v as i128 * W[k];
+        }
+    }
+    t
+}
+
 /// time of day classes (ns in [0, 86400e9))
 pub fn tod_any() -> BS<i128> {
     wunion(vec![
+        // only some of the fields h / min / s / ms / us / ns non-zero (e.g. 00:00:00.000250000)
+        (2, (1u8..64, any::<u64>()).prop_map(|(m, r)| tod_masked(m, r)).boxed()),
         (2, Just(0i128).boxed()),
         (2, Just(NS_D - 1).boxed()),
         (1, (0i128..1000).boxed()),
